@@ -159,6 +159,8 @@ def const_value(c):
             return struct.unpack("<f", struct.pack("<I", c["fbits"]))[0]
     if "str" in c:
         return c["str"]
+    if "bytes" in c:
+        return bytes.fromhex(c["bytes"])
     return None
 
 
